@@ -60,12 +60,15 @@ AtomicW(f, tmp, n, sync) == <<Op("creat", tmp, "")>> \o W(tmp, n)
                             \o (IF sync THEN <<Op("fsync", tmp, "")>> ELSE <<>>)
                             \o <<Op("close", tmp, ""), Op("rename", tmp, f)>>
 WriteP(p, f, tmp, n, sync) == IF p = "atomic" THEN AtomicW(f, tmp, n, sync) ELSE InPlace(f, n)
+\* the generator of build.ninja writes a header, closes the file and opens it again for appending
+TwoSessions(f, n) == <<Op("creat", f, ""), Op("write", f, ""), Op("close", f, ""), Op("append", f, "")>> \o W(f, n) \o <<Op("close", f, "")>>
+WriteNinja(p, n) == IF p = "atomic" THEN TwoSessions(NinjaTmp, n) \o <<Op("rename", NinjaTmp, Ninja)>> ELSE TwoSessions(Ninja, n)
 CopyF(src, dst) == <<Op("read", src, ""), Op("creat", dst, ""), Op("copy", dst, src), Op("close", dst, ""), Op("close", src, "")>>
 
 SaveCore(d, hasCore) == (IF hasCore THEN CopyF(Core, CorePrev) ELSE <<>>)
                         \o WriteP(d.coreP, Core, CoreTmp, d.chunks, d.sync)
 Backend(d)  == InPlace(Install, 1)
-               \o (IF d.ninja THEN WriteP(d.ninjaP, Ninja, NinjaTmp, d.chunks, FALSE) ELSE <<>>)
+               \o (IF d.ninja THEN WriteNinja(d.ninjaP, d.chunks) ELSE <<>>)
 SaveBuild(d) == InPlace(BuildDat, d.chunks)
 SaveCmdl(d)  == WriteP(d.cmdlP, Cmdl, CmdlTmp, 1, FALSE)
 Intro(d)     == AtomicW(IntroOpts, IntroTmp, d.chunks, FALSE)
@@ -107,12 +110,12 @@ Wipe(d) ==
 
 PreOf(d) ==
     CASE d.hist = "fresh"   -> <<>>
-      [] d.hist = "partial" -> <<[f |-> Priv, st |-> "dir"]>>
-      [] OTHER -> <<[f |-> Priv, st |-> "dir"], [f |-> Info, st |-> "dir"], [f |-> Core, st |-> "full"],
-                    [f |-> Cmdl, st |-> "full"], [f |-> BuildDat, st |-> "full"], [f |-> Install, st |-> "full"],
-                    [f |-> IntroOpts, st |-> "full"]>>
-                  \o (IF d.ninja THEN <<[f |-> Ninja, st |-> "full"]>> ELSE <<>>)
-                  \o (IF d.hist = "configured-prev" THEN <<[f |-> CorePrev, st |-> "full"]>> ELSE <<>>)
+      [] d.hist = "partial" -> <<[f |-> Priv, st |-> "dir", ver |-> "none"]>>
+      [] OTHER -> <<[f |-> Priv, st |-> "dir", ver |-> "none"], [f |-> Info, st |-> "dir", ver |-> "none"], [f |-> Core, st |-> "full", ver |-> "old"],
+                    [f |-> Cmdl, st |-> "full", ver |-> "old"], [f |-> BuildDat, st |-> "full", ver |-> "old"], [f |-> Install, st |-> "full", ver |-> "old"],
+                    [f |-> IntroOpts, st |-> "full", ver |-> "old"]>>
+                  \o (IF d.ninja THEN <<[f |-> Ninja, st |-> "full", ver |-> "old"]>> ELSE <<>>)
+                  \o (IF d.hist = "configured-prev" THEN <<[f |-> CorePrev, st |-> "full", ver |-> "older"]>> ELSE <<>>)
 
 ScriptOf(d) ==
     [design |-> d, kind |-> d.kind, fresh |-> d.hist \in {"fresh", "partial"},
